@@ -1,7 +1,7 @@
 (* wire interface of the C08 model (extracted, run against the real parser and the real
    inspect.signature binder by harness/props/c08.py) *)
 From Coq Require Import String Ascii ZArith List Bool Arith.
-From RV Require Import Base.Wire Base.Text Lang.Sig Gen.Signatures Lang.Bind.
+From RV Require Import Base.Wire Base.Text Lang.Sig Gen.Signatures Lang.Bind Lang.EmitTypes Gen.EmitStage Lang.BindEmit.
 Import ListNotations.
 Open Scope Z_scope.
 
@@ -37,10 +37,51 @@ Definition un_shape (n : wv) (ks : wv) : option call_shape :=
   | _, _ => None
   end.
 
+(* ---- emitter stage *)
+Definition un_fval (v : wv) : option fval :=
+  match v with
+  | WL [WI 0] => Some (FConst CNone)
+  | WL [WI 1; WI n; WI d] => Some (FConst (CNum n d))
+  | WL [WI 2; t] => match un_text t with Some t => Some (FConst (CStr t)) | None => None end
+  | WL [WI 3; WI b] => Some (FConst (CBool (negb (b =? 0))))
+  | WL [WI 4; t] => match un_text t with Some t => Some (FExpr t) | None => None end
+  | _ => None
+  end.
+
+Fixpoint un_fvals (l : list wv) : option (list fval) :=
+  match l with
+  | [] => Some []
+  | v :: r => match un_fval v, un_fvals r with Some x, Some xs => Some (x :: xs) | _, _ => None end
+  end.
+
+Definition wfval (v : fval) : wv :=
+  match v with
+  | FConst CNone => WL [WI 0]
+  | FConst (CNum n d) => WL [WI 1; WI n; WI d]
+  | FConst (CStr t) => WL [WI 2; wtext t]
+  | FConst (CBool b) => WL [WI 3; wbool b]
+  | FExpr e => WL [WI 4; wtext e]
+  end.
+
+Definition wsarg (a : sarg) : wv := match a with AOmitted => WL [WI 0] | AGiven v => WL [WI 1; wfval v] end.
+
+Definition wptest (t : ptest) : wv :=
+  WI (match t with PAlways => 0 | PNotNone => 1 | PTruthy => 2 | PNoneAsZero => 3 | PUnread => 4 end).
+
+(* values of the arguments of one call: positional values in order, keyword values in the order of the keywords *)
+Definition mk_val (pv kv : list fval) (ks : list text) : tag -> fval :=
+  fun t => match t with
+           | TPos i => nth i pv (FExpr [])
+           | TKw k => match tlookup k (combine ks kv) with Some v => v | None => FExpr [] end
+           end.
+
 (* (0 m npos (kw ...))  -> redu_bind          : (0 binding) | (1)
    (1 m npos (kw ...))  -> py_bind            : (0 binding) | (1)
    (2 m npos (kw ...))  -> guard_ok (guard_of m)
-   (3)                  -> table summary: ((name translated device-params guarded) ...) *)
+   (3)                  -> table summary: ((name translated device-params guarded) ...)
+   (4)                  -> parameter -> IR field table: ((method kind ((param field test guarded) ...)) ...)
+   (5 m npos (kw ...) (positional values) (keyword values)) -> firmware arguments of the bound call:
+                           (0 ((param sarg) ...)) | (1) rejected *)
 Definition run (v : wv) : wv :=
   match v with
   | WL [WI 0; m; n; ks] =>
@@ -64,5 +105,22 @@ Definition run (v : wv) : wv :=
       WL [WL (map (fun m => WL [wtext m; wbool true; WL (map wtext (device_params m)); wbool (negb (unguarded m))])
                   translated_methods
               ++ map (fun m => WL [wtext m; wbool false; WL []; wbool false]) host_only_methods)]
+  | WL [WI 4] =>
+      WL [WL (map (fun r : text * (text * list (text * text)) =>
+                     let m := fst r in
+                     WL [wtext m; wtext (fst (snd r));
+                         WL (map (fun pf : text * text =>
+                                    WL [wtext (fst pf); wtext (snd pf); wptest (test_of m (fst pf)); wbool (param_guarded m (fst pf))])
+                                 (snd (snd r)))])
+                  ir_table)]
+  | WL [WI 5; m; n; ks; WL pv; WL kv] =>
+      match un_text m, un_shape n ks, un_fvals pv, un_fvals kv with
+      | Some m, Some sh, Some pv, Some kv =>
+          match redu_bind m sh with
+          | Rejected => WL [WI 1]
+          | Bound b => WL [WI 0; WL (map (fun ps => WL [wtext (fst ps); wsarg (snd ps)]) (fw_vector m (mk_val pv kv (kws sh)) b))]
+          end
+      | _, _, _, _ => wbad
+      end
   | _ => wbad
   end.
